@@ -139,7 +139,7 @@ def replay_edges(ctx, edges_path, kind, to, cap, channels, impls):
     return paths_file
 
 
-def run_apalache(ctx, module, step_timeout=2400, witness=None):
+def run_apalache(ctx, module, step_timeout=2400, witness=None, theorem=None):
     """Unbounded safety of the DESIGN without value abstraction: Apalache checks that IndInv is an
     inductive invariant (base: Init => IndInv; step: IndInv /\\ Next => IndInv') over the full
     alphabet.  A time-out or tool failure is 'not discharged', never a violation."""
@@ -152,8 +152,13 @@ def run_apalache(ctx, module, step_timeout=2400, witness=None):
             if f.endswith(".tla"):
                 shutil.copy(os.path.join(SPEC, sub, f), d)
     rec = {"module": module, "tool": "apalache-mc 0.58.0"}
-    for name, args, tmo in (("base", ["--init=Init", "--inv=IndInv", "--length=0"], 600),
-                            ("step", ["--init=IndInit", "--inv=IndInv", "--length=1"], step_timeout)):
+    runs = [("base", ["--init=Init", "--inv=IndInv", "--length=0"], 600),
+            ("step", ["--init=IndInit", "--inv=IndInv", "--length=1"], step_timeout)]
+    if theorem:
+        # a state predicate that holds in EVERY state satisfying the inductive invariant (hence in every
+        # reachable state), for an arbitrary message chosen in IndInit: full value domain
+        runs.append(("theorem_" + theorem, ["--init=IndInit", "--inv=" + theorem, "--length=0"], 1800))
+    for name, args, tmo in runs:
         cmd = ["timeout", str(tmo), "apalache-mc", "check"] + args + ["--out-dir=" + os.path.join(d, "out_" + name), module + ".tla"]
         rc, out, dt = sh(cmd, cwd=d, check=False, timeout=tmo + 60)
         ok = "The outcome is: NoError" in out
